@@ -1001,10 +1001,11 @@ func settle(t *testing.T, want int) {
 }
 
 // decideMsg: a DECIDE vote of `sender` for instance inst finalizing from..to, justified by everybody's COMMIT
-func (w *world) decideMsg(inst uint64, from, to int64, sender int) *gpbft.GMessage {
+// (justified by the COMMITs of round `nonce`: pubsub drops a message whose bytes it has seen before)
+func (w *world) decideMsg(inst uint64, from, to int64, sender int, nonce uint64) *gpbft.GMessage {
 	ctx := context.Background()
 	crt := w.mkCert(inst, from, to)
-	commit := gpbft.Payload{Instance: inst, Round: 0, Phase: gpbft.COMMIT_PHASE, SupplementalData: crt.SupplementalData, Value: crt.ECChain}
+	commit := gpbft.Payload{Instance: inst, Round: nonce, Phase: gpbft.COMMIT_PHASE, SupplementalData: crt.SupplementalData, Value: crt.ECChain}
 	agg, err := w.sb.Aggregate(w.table.PublicKeys())
 	if err != nil {
 		w.t.Fatal(err)
@@ -1039,7 +1040,10 @@ type loopH struct {
 	t       *testing.T
 	hl      *hookLog
 	started bool
+	nonce   uint64
 }
+
+func (h *loopH) nextNonce() uint64 { h.nonce++; return h.nonce }
 
 func (h *loopH) lobs() ev {
 	o := h.obs()
@@ -1129,8 +1133,46 @@ func (h *loopH) publish(msg *gpbft.GMessage) {
 	for !h.w.ver.saw(msg.Signature) && time.Now().Before(deadline) {
 		time.Sleep(time.Millisecond)
 	}
+	if os.Getenv("VERIF_DEBUG") != "" {
+		h.t.Logf("publish inst=%d phase=%d: validated=%v after %v", msg.Vote.Instance, msg.Vote.Phase, h.w.ver.saw(msg.Signature), time.Since(deadline.Add(-30*time.Second)))
+	}
 	// ... then forwarded to the loop's message queue; give that hand-over time (being late only weakens the probe)
 	time.Sleep(40 * time.Millisecond)
+}
+
+// fenceMsg: a QUALITY vote of identity 3 for an instance a few ahead.  Messages are served in the order they were
+// published, so once this one sits in the participant's queue everything published before it has been served.
+func (w *world) fenceMsg(inst uint64, e int64, nonce uint64) *gpbft.GMessage {
+	ts := tipset(w, e)
+	ts.Key = []byte(fmt.Sprintf("F%d", nonce))
+	chain, err := gpbft.NewChain(ts)
+	if err != nil {
+		w.t.Fatal(err)
+	}
+	pl := gpbft.Payload{Instance: inst, Round: 0, Phase: gpbft.QUALITY_PHASE, SupplementalData: gpbft.SupplementalData{PowerTable: w.ptCid}, Value: chain}
+	sig, err := w.sb.Sign(context.Background(), w.table[2].PubKey, pl.MarshalForSigning(netName))
+	if err != nil {
+		w.t.Fatal(err)
+	}
+	return &gpbft.GMessage{Sender: w.table[2].ID, Vote: pl, Signature: sig}
+}
+
+// served: wait until the fence message has reached the participant's queue
+func (h *loopH) served(inst uint64) (ok bool) {
+	deadline := time.Now().Add(60 * time.Second)
+	if os.Getenv("VERIF_DEBUG") != "" {
+		defer func() { h.t.Logf("served(%d)=%v after %v", inst, ok, time.Since(deadline.Add(-60*time.Second))) }()
+	}
+	for time.Now().Before(deadline) {
+		settle(h.t, 2)
+		for _, m := range h.run.Queued(inst) {
+			if m.Sender == h.w.table[2].ID && m.Vote.Phase == gpbft.QUALITY_PHASE {
+				return true
+			}
+		}
+		time.Sleep(2 * time.Millisecond)
+	}
+	return false
 }
 
 // prio1: the loop is busy beginning instance k (held inside GetProposal); meanwhile a certificate for k is stored and a
@@ -1149,6 +1191,7 @@ func (h *loopH) prio1() {
 	h.backend.mu.Lock()
 	h.backend.gateOn = map[string]bool{"GetTipset": true}
 	h.backend.mu.Unlock()
+	h.w.ver.take()
 	h.now = ms
 	e := h.now/h.s.Period - h.lag
 	if e > h.backend.headE {
@@ -1171,32 +1214,19 @@ func (h *loopH) prio1() {
 	}
 	from := h.lastEp
 	h.lastEp = to
-	h.publish(h.w.decideMsg(k, from, to, 0))
+	h.publish(h.w.decideMsg(k, from, to, 0, h.nextNonce()))
+	h.publish(h.w.fenceMsg(k+3, to, h.nextNonce()))
 	h.backend.release <- struct{}{}
 	first := "unknown"
-	var outs []ev
-	deadline := time.Now().Add(60 * time.Second)
-	for time.Now().Before(deadline) {
-		settle(h.t, 2)
-		o, _ := h.drainOut()
-		outs = append(outs, o...)
-		for _, x := range o {
-			if x["inst"].(uint64) == k && x["phase"].(uint8) == uint8(gpbft.DECIDE_PHASE) {
-				first = "msg"
-			}
-		}
-		if first == "unknown" && h.hl.has("dropping message from old instance") {
+	if h.served(k + 3) {
+		// the DECIDE vote for k has been served: dropped as old (the certificate came first) or received by instance k
+		first = "msg"
+		if h.hl.has(fmt.Sprintf("dropping message from old instance %d ", k)) {
 			first = "cert"
 		}
-		if first != "unknown" {
-			break
-		}
-		time.Sleep(2 * time.Millisecond)
 	}
 	settle(h.t, 2)
-	if outs == nil {
-		outs = []ev{}
-	}
+	outs, _ := h.drainOut()
 	if os.Getenv("VERIF_DEBUG") != "" {
 		h.t.Logf("prio1 k=%d first=%s log=%q", k, first, h.hl.take())
 	}
@@ -1215,6 +1245,7 @@ func (h *loopH) prio2() {
 	h.backend.mu.Lock()
 	h.backend.gateOn = map[string]bool{"GetHead": true}
 	h.backend.mu.Unlock()
+	h.w.ver.take()
 	h.hl.take()
 	to := h.lastEp
 	if h.lastEp+1 <= h.backend.headE {
@@ -1230,34 +1261,20 @@ func (h *loopH) prio2() {
 	case <-time.After(60 * time.Second):
 		h.t.Fatalf("prio2: the loop did not take the certificate")
 	}
-	h.publish(h.w.decideMsg(k+1, to, to, 0))
+	h.publish(h.w.decideMsg(k+1, to, to, 0, h.nextNonce()))
+	h.publish(h.w.fenceMsg(k+4, to, h.nextNonce()))
 	h.backend.release <- struct{}{}
 	first := "unknown"
-	var outs []ev
-	deadline := time.Now().Add(60 * time.Second)
-	for time.Now().Before(deadline) {
-		settle(h.t, 2)
-		o, _ := h.drainOut()
-		outs = append(outs, o...)
-		seen := false
-		for _, x := range outs {
-			if x["inst"].(uint64) == k+1 && x["phase"].(uint8) == uint8(gpbft.DECIDE_PHASE) {
-				seen = true
-			}
+	if h.served(k+4) && h.run.Begun() && h.run.Progress().ID == k+1 {
+		// the start computed for k+1 was due and the DECIDE vote for k+1 has been served: queued and handed over when
+		// the instance began (the message came first), or received by the running instance
+		first = "alarm"
+		if h.hl.has(fmt.Sprintf("Delivering queued {%d} ← P1: DECIDE", k+1)) {
+			first = "msg"
 		}
-		if seen {
-			first = "alarm"
-			if h.hl.has("Delivering queued") {
-				first = "msg"
-			}
-			break
-		}
-		time.Sleep(2 * time.Millisecond)
 	}
 	settle(h.t, 2)
-	if outs == nil {
-		outs = []ev{}
-	}
+	outs, _ := h.drainOut()
 	if os.Getenv("VERIF_DEBUG") != "" {
 		h.t.Logf("prio2 k=%d first=%s log=%q", k, first, h.hl.take())
 	}
@@ -1271,15 +1288,15 @@ func TestRunnerLoop(t *testing.T) {
 	seed := int64(envInt("VERIF_SEED", 1))
 	nh := envInt("VERIF_N", 16)
 	rng := rand.New(rand.NewSource(seed))
-	ctx0, cancel := context.WithCancel(context.Background())
-	defer cancel()
-	w := newWorld(t, ctx0)
 	hl := &hookLog{}
 	f3.VerifSetTracer(&recTracer{l: hl})
 	base := t.TempDir()
 	for hi := 0; hi < nh; hi++ {
 		s := mfSpec{Period: hPeriods[(hi+int(seed))%3], Mult2: gMult2[rng.Intn(5)], Lookback: []int{0, 0, 1}[rng.Intn(3)],
-			Table2: gTables[rng.Intn(4)], Align: []int64{0, 3000, 8000}[rng.Intn(3)], Init: gInits[hi%2]}
+			Table2: gTables[rng.Intn(4)], Align: []int64{0, 0, 3000, 8000}[rng.Intn(4)], Init: gInits[hi%2]}
+		// a node of its own per history (own libp2p host, pubsub and keys)
+		ctx0, cancel := context.WithCancel(context.Background())
+		w := newWorld(t, ctx0)
 		ctx, clk := clock.WithMockClock(ctx0)
 		m := w.manifest(s)
 		m.ChainExchange.RebroadcastInterval = 24 * time.Hour // a ticker on the mock clock: keep it out of the way of clock jumps
@@ -1349,6 +1366,7 @@ func TestRunnerLoop(t *testing.T) {
 		}
 		h.lstop()
 		os.RemoveAll(h.dir)
+		cancel()
 	}
 	t.Logf("histories=%d events=%d", nh, r.n)
 }
